@@ -28,18 +28,22 @@ META = {
                  "about the generated definitions (quadratic-root characterisation, case split over every branch) + hand "
                  "model of ray_eliminate / mj_ray / mj_multiRay with fold-invariant proofs + bitwise translation validation "
                  "and exact correspondence on generated scenes + analytic property oracle on the compiled functions",
-    "text": "ray_quad returns the smallest non-negative root of a x^2 + 2 b x + c (a >= mjMINVAL) and -1 iff none; "
-            "ray-plane, ray-sphere and ray-ellipsoid (the mju_rayGeom paths) return a parameter whose point lies on the surface, "
-            "no smaller non-negative parameter does, and -1 iff no admissible intersection exists; ray-box, ray-cylinder and "
-            "ray-capsule: see the theorem list (soundness / nearest among the code's candidate set). The selection model "
-            "(mj_ray = first argmin over geoms not eliminated, mj_multiRay = per-ray fold with conservative culling) is proved "
-            "to return the minimum over eligible geoms, (-1,-1) iff none is hit, and multiRay = map ray when culling is sound.",
+    "text": "Proved over the reals about the kernels generated from engine_ray.c: ray_quad returns the smallest non-negative "
+            "root of a x^2 + 2 b x + c (for a >= mjMINVAL), -1 iff there is none, and its two output slots are exactly the "
+            "ordered real roots; mju_rayGeom for plane, sphere and ellipsoid returns a parameter whose point lies on the surface "
+            "(plane: front face, inside the rendered rectangle), no smaller non-negative parameter does, and -1 iff no admissible "
+            "intersection exists; for box, cylinder and capsule (…_partial) a returned x >= 0 lies on the surface and the result is "
+            "-1 or >= 0 (nearest / completeness for these three is covered by the analytic oracle only). Proved about the hand model "
+            "of the selection logic: ray_eliminate keeps exactly the geoms passing the documented filter (body exclusion, "
+            "visibility, static flag, clamped group mask); mj_ray returns the minimum of the per-geom distances over the eligible "
+            "geoms that are hit, the geom id is the first index attaining it, (-1,-1) iff none; mj_multiRay equals the map of "
+            "mj_ray whenever its culling only removes geoms the ray does not hit and no direction is shorter than its threshold.",
     "note": "theorems are over the reals (rounding outside the proofs); meshes, height fields, SDFs and flexes are not "
-            "modelled (box meshes are covered by the oracle only); the bounding-angle culling of mj_multiRay is an input "
-            "of the model (its soundness is a hypothesis of multiRay_eq_map_ray and is sampled by the oracle).",
+            "modelled (box meshes are exercised by the oracle only); the per-geom distances and the bounding-sphere / "
+            "bounding-angle culling of mj_multiRay are inputs of the hand model: soundness of the culling is a hypothesis of "
+            "multiRay_eq_map_ray and is sampled by the oracle, which finds it violated on the current tree (keys "
+            "c16:multiray-body-sphere-center, c16:multiray-visual-geom-culled, c16:multiray-short-vec).",
 }
-
-THEOREMS = []
 
 PLANE, HFIELD, SPHERE, CAPSULE, ELLIPSOID, CYLINDER, BOX, MESH = (E("mjGEOM_PLANE"), E("mjGEOM_HFIELD"), E("mjGEOM_SPHERE"),
                                                                  E("mjGEOM_CAPSULE"), E("mjGEOM_ELLIPSOID"), E("mjGEOM_CYLINDER"),
